@@ -124,7 +124,7 @@ func runWarm() int {
 		if strings.HasPrefix(name, "APA_") {
 			continue
 		}
-		out, err := run(dir, nil, 2*time.Minute, "java", "-cp", tlaJar, "tla2sany.SANY", name)
+		out, err := run(dir, nil, 2*time.Minute, "java", "-Djava.io.tmpdir="+dir, "-cp", tlaJar, "tla2sany.SANY", name)
 		if err != nil || strings.Contains(out, "*** Errors") || strings.Contains(out, "Fatal errors") {
 			fmt.Printf("SANY %s: %v\n%s\n", name, err, trunc(out, 1500))
 			bad++
